@@ -638,7 +638,7 @@ impl ViCut {
 		self.current_buffer().exec_cmd(cmd.clone())?;
 
 		// An operator ends visual mode, whether it changes the text or only yanks it
-		if self.mode.report_mode() == ModeReport::Visual && cmd.verb().is_some_and(|v| v.1.is_edit() || matches!(v.1, Verb::Yank)) {
+		if self.mode.report_mode() == ModeReport::Visual && cmd.verb().is_some_and(|v| v.1.is_edit() || matches!(v.1, Verb::Yank | Verb::Indent | Verb::Dedent | Verb::Equalize)) {
 			self.current_buffer().stop_selecting();
 			let mut mode: Box<dyn ViMode> = Box::new(ViNormal::new());
 			std::mem::swap(&mut mode, &mut self.mode);
